@@ -110,14 +110,22 @@ def moveTok (vars : List VarInfo) (t : Tok) (k : Ext) (c w : Nat) : Tok :=
             (t.sv && vi.required != .none && k == vi.required &&
               ((k == .fwiden || k == .fnarrow) || (c == vi.S && decide (w ≥ vi.D)))) }
 
-/-- a load addresses the incoming arguments through `sp` (displacement `saOffSp`) or through the register that carries the
-    stack-argument pointer (displacement `saOffSa`); which register that is at the time of the load is trusted, not tracked -/
-def loadLoc (sp : Nat) (saOffSp saOffSa : Int) (base : Nat) (off : Int) : Option Loc :=
-  if base = sp then some (.argStack (off - saOffSp)) else some (.argStack (off - saOffSa))
+/-- token id of the stack-arguments base pointer (the SA variable of `init_work_data`) -/
+def saTokVar : Nat := 1000000
+
+/-- a load addresses the incoming arguments: through `sp` (displacement `saOffSp`) when the frame is not dynamically aligned,
+    through the frame pointer when it is preserved, otherwise through whatever register holds the stack-arguments base pointer
+    *at the time of the load* – the pointer is a token like the arguments and moves with `mov` / `xchg` -/
+def loadLoc (f : FrameIn) (ar : Arch) (s : State) (base : Nat) (off : Int) : Option Loc :=
+  if !f.da then (if base = spId ar then some (.argStack (off - f.saOffSp)) else none)
+  else if f.fp then (if base = fpId ar then some (.argStack (off - f.saOffSa)) else none)
+  else match s.get (.reg 0 base) with
+    | some t => if t.var = saTokVar then some (.argStack (off - f.saOffSa)) else none
+    | none => none
 def storeLoc (sp : Nat) (base : Nat) (off : Int) : Option Loc :=
   if base = sp then some (.outStack off) else none
 
-def step (vars : List VarInfo) (saOffSp saOffSa : Int) (sp : Nat) (s : State) (i : Inst) : Option State :=
+def step (vars : List VarInfo) (f : FrameIn) (ar : Arch) (s : State) (i : Inst) : Option State :=
   match i.ops with
   | [.reg ra a, .reg rb b] =>
     let la := Loc.reg (groupOf ra) a
@@ -131,24 +139,24 @@ def step (vars : List VarInfo) (saOffSp saOffSa : Int) (sp : Nat) (s : State) (i
       | some (k, c, w) => some (s.set la ((s.get lb).map fun t => moveTok vars t k c w))
   | [.reg ra a, .mem base off size] =>
     if isStoreMn i.name then      -- AArch64 stores name the register first
-      match storeLoc sp base off, storeBytes i.name ra size with
+      match storeLoc (spId ar) base off, storeBytes i.name ra size with
       | some l, some c => some (s.set l ((s.get (.reg (groupOf ra) a)).map fun t => moveTok vars t .none c c))
       | _, _ => none
     else
-      match loadLoc sp saOffSp saOffSa base off, effect i.name ra size with
+      match loadLoc f ar s base off, effect i.name ra size with
       | some l, some (k, c, w) => some (s.set (.reg (groupOf ra) a) ((s.get l).map fun t => moveTok vars t k c w))
       | _, _ => none
   | [.mem base off size, .reg rb b] =>
-    match storeLoc sp base off, storeBytes i.name rb size with
+    match storeLoc (spId ar) base off, storeBytes i.name rb size with
     | some l, some c => some (s.set l ((s.get (.reg (groupOf rb) b)).map fun t => moveTok vars t .none c c))
     | _, _ => none
   | _ => none
 
-def run (vars : List VarInfo) (saOffSp saOffSa : Int) (sp : Nat) : State → List Inst → Option State
+def run (vars : List VarInfo) (f : FrameIn) (ar : Arch) : State → List Inst → Option State
   | s, [] => some s
-  | s, i :: is => match step vars saOffSp saOffSa sp s i with
+  | s, i :: is => match step vars f ar s i with
     | none => none
-    | some s' => run vars saOffSp saOffSa sp s' is
+    | some s' => run vars f ar s' is
 
 /-- initial token of argument `v` -/
 def initTok (vars : List VarInfo) (v : Nat) : Tok :=
@@ -200,6 +208,16 @@ def setup (vals : List (FuncValue × Option FuncValue)) : List VarInfo × State 
 /-- the judgement: `none` = the schedule contains something the machine does not know; `some b` = post-condition holds / fails -/
 def judge (arch : Arch) (f : FrameIn) (vals : List (FuncValue × Option FuncValue)) (insts : List Inst) : Option Bool :=
   let (vars, init, dests) := setup vals
-  (run vars f.saOffSp f.saOffSa (spId arch) init insts).map (shuffleOk dests)
+  (run vars f arch init insts).map (shuffleOk dests)
+
+/-- where the stack-arguments base pointer lives on entry: the frame's SA register, when the frame is dynamically aligned and
+    keeps no frame pointer -/
+def saInit (f : FrameIn) : State :=
+  if f.da && !f.fp && f.saReg != 255 then [(.reg 0 f.saReg, ⟨saTokVar, false, false⟩)] else []
+
+/-- the judgement with the base pointer tracked (what the monitor runs; equal to `judge` when the frame has no such pointer) -/
+def judgeSA (arch : Arch) (f : FrameIn) (vals : List (FuncValue × Option FuncValue)) (insts : List Inst) : Option Bool :=
+  let (vars, init, dests) := setup vals
+  (run vars f arch (saInit f ++ init) insts).map (shuffleOk dests)
 
 end AsmjitVerif.Machine
